@@ -132,3 +132,198 @@ Proof.
     intros x H1 H2. apply Br in H2. eapply (NoDup_app_disj _ _ x Hnd); eauto.
     destruct o as [st'|]; cbn in H1; [|contradiction]. rewrite app_nil_r in H1. apply Bs. exact H1.
 Qed.
+
+Lemma PW_SSIf c inv ss : QW ss -> PW (SSIf c inv ss).
+Proof.
+  intros HQ S S' s Hsc (Hnd & Hfr & Hint) Hi.
+  rewrite scoped_SSIf in Hsc. apply andb_prop in Hsc. destruct Hsc as [Hc Hsc].
+  rewrite binders_SSIf in *. cbn [defs] in *. rewrite dce_SSIf in *.
+  pose proof (dce_stmts_mono ss s) as M.
+  specialize (HQ S S' s Hsc). destruct (dce_stmts ss s) as [ss' sa]. cbn [fst snd] in *.
+  assert (Hpre : pre (binders_l ss) (defs_l ss) S s).
+  { split; auto. split; auto. intros x Hx Hb. destruct (Hint x Hx Hb). }
+  destruct (is_nil ss') eqn:En; cbn [fst snd olist] in *.
+  - destruct (HQ Hpre Hi) as (A1 & A2 & A3). split; [reflexivity|]. split; [|constructor].
+    intros x Hx Hd. cbn in *. auto.
+  - destruct (HQ Hpre) as (A1 & A2 & A3); [intros x Hx; apply Hi; rewrite In_use_expr; auto|].
+    split; [|split].
+    + cbn [scoped_l]. rewrite scoped_SSIf, A1, !andb_true_r. eapply in_scope_tr; eauto. intros y ->. rewrite In_use_expr. auto.
+    + intros x Hx Hd. cbn in *. apply Hi; auto. rewrite In_use_expr. auto.
+    + cbn [binders_l]. rewrite binders_SSIf, app_nil_r. exact A3.
+Qed.
+
+Lemma PW_SIf c s1 s2 fas : QW s1 -> QW s2 -> PW (SIf c s1 s2 fas).
+Proof.
+  intros HQ1 HQ2 S S' s Hsc (Hnd & Hfr & Hint) Hi.
+  rewrite scoped_SIf in Hsc. apply andb_prop in Hsc. destruct Hsc as [Hsc Hf].
+  apply andb_prop in Hsc. destruct Hsc as [Hsc Hs2]. apply andb_prop in Hsc. destruct Hsc as [Hc Hs1].
+  rewrite forallb_forall in Hf.
+  rewrite binders_SIf in *. cbn [defs] in *.
+  assert (Hnd1 : NoDup (binders_l s1)) by (eapply NoDup_app_l; eauto).
+  assert (Hnd2 : NoDup (binders_l s2)) by (eapply NoDup_app_l, NoDup_app_r; eauto).
+  assert (Hndf : NoDup (map t_name fas)) by (eapply NoDup_app_r, NoDup_app_r; eauto).
+  assert (D12 : forall x, In x (binders_l s1) -> In x (binders_l s2) -> False).
+  { intros x H1 H2. eapply (NoDup_app_disj _ _ x Hnd); eauto. rewrite in_app_iff. auto. }
+  assert (D1f : forall x, In x (binders_l s1) -> In x (map t_name fas) -> False).
+  { intros x H1 H2. eapply (NoDup_app_disj _ _ x Hnd); eauto. rewrite in_app_iff. auto. }
+  assert (D2f : forall x, In x (binders_l s2) -> In x (map t_name fas) -> False).
+  { intros x H1 H2. apply NoDup_app_r in Hnd. eapply (NoDup_app_disj _ _ x Hnd); eauto. }
+  assert (Fr1 : forall x, In x (binders_l s1) -> ~ In x S) by (intros x Hx; apply Hfr; rewrite !in_app_iff; auto).
+  assert (Fr2 : forall x, In x (binders_l s2) -> ~ In x S) by (intros x Hx; apply Hfr; rewrite !in_app_iff; auto).
+  rewrite dce_SIf in *.
+  destruct (dce_fas fas s) as [fas' sa] eqn:Ef.
+  destruct (dce_fas_spec _ _ _ _ Ef) as (F1 & F2 & F3 & F4 & F5 & F6).
+  pose proof (dce_stmts_mono s1 sa) as M1. pose proof (dce_stmts_grows s1 sa) as G1.
+  pose proof (dce_stmts_binders s1 sa) as Bs1.
+  specialize (HQ1 S S' sa Hs1). destruct (dce_stmts s1 sa) as [s1' sb]. cbn [fst snd] in *.
+  pose proof (dce_stmts_mono s2 sb) as M2. pose proof (dce_stmts_binders s2 sb) as Bs2.
+  specialize (HQ2 S S' sb Hs2). destruct (dce_stmts s2 sb) as [s2' sc]. cbn [fst snd] in *.
+  assert (Hsa : forall x, In x sa -> In x (binders_l s1 ++ binders_l s2) ->
+                (In x (binders_l s1) -> In x (defs_l s1)) /\ (In x (binders_l s2) -> In x (defs_l s2))).
+  { intros x Hx Hb. destruct (F5 x Hx) as [Hs|[t [Ht Hu]]].
+    - exfalso. rewrite in_app_iff in Hb. specialize (Hint x Hs ltac:(rewrite !in_app_iff; tauto)).
+      destruct Hb; eauto.
+    - specialize (Hf t Ht). apply andb_prop in Hf. destruct Hf as [Hf1 Hf2]. destruct Hu as [E|E].
+      + rewrite E in Hf1. apply in_scope_var in Hf1. rewrite in_app_iff in Hf1. destruct Hf1 as [Hd|Hd].
+        * split; auto. intros H2. exfalso. apply (D12 x); auto. now apply defs_l_in_binders.
+        * exfalso. rewrite in_app_iff in Hb. destruct Hb as [Hb|Hb]; [apply (Fr1 x) | apply (Fr2 x)]; auto.
+      + rewrite E in Hf2. apply in_scope_var in Hf2. rewrite in_app_iff in Hf2. destruct Hf2 as [Hd|Hd].
+        * split; auto. intros H1. exfalso. apply (D12 x); auto. now apply defs_l_in_binders.
+        * exfalso. rewrite in_app_iff in Hb. destruct Hb as [Hb|Hb]; [apply (Fr1 x) | apply (Fr2 x)]; auto. }
+  assert (Hpre1 : pre (binders_l s1) (defs_l s1) S sa).
+  { split; auto. split; auto. intros x Hx Hb. apply (Hsa x Hx); auto. rewrite in_app_iff. auto. }
+  assert (Hpre2 : pre (binders_l s2) (defs_l s2) S sb).
+  { split; auto. split; auto. intros x Hx Hb. destruct (G1 x Hx) as [Ha|Hu].
+    - apply (Hsa x Ha); auto. rewrite in_app_iff. auto.
+    - exfalso. destruct (uses_l_scoped _ _ _ Hs1 Hu) as [Hi'|Hi']; [apply (Fr2 x) | apply (D12 x)]; auto. }
+  assert (Hlive : forall x, In x sc -> In x S -> In x S').
+  { intros x Hx HS. apply Hi; auto. destruct (is_nil s1' && is_nil s2' && is_nil fas'); cbn [fst snd]; [|rewrite In_use_expr]; auto. }
+  destruct (HQ1 Hpre1) as (A1 & A2 & A3); [intros x Hx; apply Hlive; auto|].
+  destruct (HQ2 Hpre2 Hlive) as (B1 & B2 & B3).
+  destruct (is_nil s1' && is_nil s2' && is_nil fas') eqn:En; cbn [fst snd olist] in *.
+  - apply andb_prop in En. destruct En as [En E3]. destruct fas'; [|discriminate].
+    split; [reflexivity|]. split; [|constructor]. intros x Hx Hd. cbn [defs_l app]. apply in_app_or in Hd. destruct Hd as [Hd|Hd].
+    + apply in_map_iff in Hd. destruct Hd as [t [<- Ht]]. destruct (F3 t Ht Hx).
+    + apply Hlive; auto.
+  - split; [|split].
+    + cbn [scoped_l]. rewrite scoped_SIf, A1, B1, !andb_true_r. apply andb_true_intro. split.
+      * eapply in_scope_tr; eauto. intros y ->. rewrite In_use_expr. auto.
+      * rewrite forallb_forall. intros t Ht. specialize (Hf t (F2 t Ht)). apply andb_prop in Hf. destruct Hf as [Hf1 Hf2].
+        apply andb_true_intro. split.
+        -- destruct (t_e1 t) as [| | |x] eqn:E; try reflexivity. apply in_scope_var. apply in_scope_var in Hf1.
+           apply A2; auto. apply (F4 t x Ht). left. exact E.
+        -- destruct (t_e2 t) as [| | |x] eqn:E; try reflexivity. apply in_scope_var. apply in_scope_var in Hf2.
+           apply B2; auto. apply M1. apply (F4 t x Ht). right. exact E.
+    + intros x Hx Hd. cbn [defs_l defs app]. apply in_app_or in Hd. apply in_or_app. destruct Hd as [Hd|Hd].
+      * left. apply in_map_iff in Hd. destruct Hd as [t [<- Ht]]. apply in_map. auto.
+      * right. apply Hlive; auto.
+    + cbn [binders_l]. rewrite binders_SIf, app_nil_r. apply NoDup_app_intro; [exact A3 | |].
+      * apply NoDup_app_intro; [exact B3 | auto |]. intros x H1 H2. apply (D2f x); auto.
+        apply in_map_iff in H2. destruct H2 as [t [<- Ht]]. apply in_map. auto.
+      * intros x H1 H2. apply in_app_or in H2. destruct H2 as [H2|H2]; [apply (D12 x); auto|].
+        apply (D1f x); auto. apply in_map_iff in H2. destruct H2 as [t [<- Ht]]. apply in_map. auto.
+Qed.
+
+Lemma PW_SWhile lvs ss bc : QW ss -> PW (SWhile lvs ss bc).
+Proof.
+  intros HQ S S' s Hsc (Hnd & Hfr & Hint) Hi.
+  rewrite scoped_SWhile in Hsc. apply andb_prop in Hsc. destruct Hsc as [Hsc Hl2].
+  apply andb_prop in Hsc. destruct Hsc as [Hl1 Hs]. rewrite forallb_forall in Hl1, Hl2.
+  rewrite binders_SWhile in *. cbn [defs] in *.
+  assert (HndL : NoDup (map t_name lvs)) by (eapply NoDup_app_l; eauto).
+  assert (HndB : NoDup (binders_l ss)) by (eapply NoDup_app_l, NoDup_app_r; eauto).
+  assert (DLB : forall x, In x (map t_name lvs) -> In x (binders_l ss) -> False).
+  { intros x H1 H2. eapply (NoDup_app_disj _ _ x Hnd); eauto. rewrite in_app_iff. auto. }
+  assert (DLc : forall x, In x (map t_name lvs) -> In x (opt_names bc) -> False).
+  { intros x H1 H2. eapply (NoDup_app_disj _ _ x Hnd); eauto. rewrite in_app_iff. auto. }
+  assert (DBc : forall x, In x (binders_l ss) -> In x (opt_names bc) -> False).
+  { intros x H1 H2. apply NoDup_app_r in Hnd. eapply (NoDup_app_disj _ _ x Hnd); eauto. }
+  assert (FrL : forall x, In x (map t_name lvs) -> ~ In x S) by (intros x Hx; apply Hfr; rewrite !in_app_iff; auto).
+  assert (FrB : forall x, In x (binders_l ss) -> ~ In x S) by (intros x Hx; apply Hfr; rewrite !in_app_iff; auto).
+  rewrite dce_SWhile in *. cbn zeta in *.
+  set (inside := uses_l ss (use_triples lvs [])) in *.
+  set (lvs1 := filter (fun t => memb (t_name t) inside) lvs) in *.
+  set (sa := use_e2s lvs1 s) in *.
+  pose proof (dce_stmts_grows ss sa) as G. pose proof (dce_stmts_binders ss sa) as Bsub.
+  pose proof (dce_stmts_mono ss sa) as M.
+  specialize (fun S'' => HQ (map t_name lvs ++ S) S'' sa Hs).
+  destruct (dce_stmts ss sa) as [ss' sb]. cbn [fst snd] in *.
+  destruct (dce_lvs lvs1 sb) as [lvs2 sc] eqn:El.
+  destruct (dce_lvs_spec _ _ _ _ El) as (F1 & F2 & F3 & F4 & F5 & F6). cbn [fst snd olist] in *.
+  assert (Hs_sa : forall x, In x s -> In x sa) by (intros x Hx; unfold sa; rewrite In_use_e2s; auto).
+  assert (Hin1 : forall t, In t lvs1 -> In t lvs) by (intros t Ht; apply filter_In in Ht; tauto).
+  assert (Hpre : pre (binders_l ss) (defs_l ss) (map t_name lvs ++ S) sa).
+  { split; auto. split.
+    - intros x Hx. rewrite in_app_iff. intros [Hi'|Hi']; [eapply DLB | eapply FrB]; eauto.
+    - intros x Hx Hb. unfold sa in Hx. rewrite In_use_e2s in Hx. destruct Hx as [[t [Ht E]]|Hx].
+      + specialize (Hl2 t (Hin1 t Ht)). rewrite E in Hl2. apply in_scope_var in Hl2.
+        rewrite !in_app_iff in Hl2. destruct Hl2 as [Hi'|[Hi'|Hi']]; auto; exfalso; [eapply DLB | eapply FrB]; eauto.
+      + exfalso. specialize (Hint x Hx ltac:(rewrite !in_app_iff; tauto)). eapply DBc; eauto. }
+  assert (Hkeep : forall t, In t lvs -> In (t_name t) sb -> In t lvs2).
+  { intros t Ht Hx. apply F3; auto. apply filter_In. split; auto. apply memb_In.
+    destruct (G _ Hx) as [Ha|Hu].
+    - unfold sa in Ha. rewrite In_use_e2s in Ha. destruct Ha as [[t' [Ht' E]]|Ha].
+      + unfold inside. rewrite uses_l_spec, In_use_triples. right. left. exists t'. split; auto. right. exact E.
+      + exfalso. specialize (Hint _ Ha ltac:(rewrite !in_app_iff; left; now apply in_map)).
+        eapply DLc; eauto. now apply in_map.
+    - unfold inside. rewrite uses_l_spec. auto. }
+  assert (HndL2 : NoDup (map t_name lvs2)) by (apply F6, NoDup_filter_names, HndL).
+  assert (Hnames2 : forall x, In x (map t_name lvs2) -> In x (map t_name lvs)).
+  { intros x Hi'. apply in_map_iff in Hi'. destruct Hi' as [t [E Ht]]. apply in_map_iff. exists t. auto. }
+  destruct (HQ (map t_name lvs2 ++ S') Hpre) as (A1 & A2 & A3).
+  { intros x Hx Hd. apply in_app_or in Hd. apply in_or_app. destruct Hd as [Hd|Hd].
+    - left. apply in_map_iff in Hd. destruct Hd as [t [<- Ht]]. apply in_map. auto.
+    - right. apply Hi; auto. }
+  split; [|split].
+  - cbn [scoped_l]. rewrite scoped_SWhile, A1, !andb_true_r. apply andb_true_intro. split.
+    + rewrite forallb_forall. intros t Ht. specialize (Hl1 t (Hin1 t (F2 t Ht))).
+      eapply in_scope_tr; eauto. intros y E. eapply F4; eauto.
+    + rewrite forallb_forall. intros t Ht. specialize (Hl2 t (Hin1 t (F2 t Ht))).
+      destruct (t_e2 t) as [| | |x] eqn:E; try reflexivity. apply in_scope_var. apply in_scope_var in Hl2.
+      apply A2; auto. unfold sa. rewrite In_use_e2s. left. exists t. auto.
+  - intros x Hx Hd. cbn [defs_l defs app]. apply in_app_or in Hd. apply in_or_app. destruct Hd as [Hd|Hd].
+    + left. destruct bc as [b|]; cbn in Hd; [|contradiction]. destruct Hd as [<-|[]]. cbn.
+      apply memb_In in Hx. rewrite Hx. left. reflexivity.
+    + right. apply Hi; auto.
+  - cbn [binders_l]. rewrite binders_SWhile, app_nil_r. apply NoDup_app_intro; [exact HndL2 | |].
+    + apply NoDup_app_intro; [exact A3 | |].
+      * destruct bc as [b|]; cbn; [|constructor]. destruct (memb b s); cbn; repeat constructor; intros [].
+      * intros x H1 H2. apply (DBc x); auto. destruct bc as [b|]; cbn in *; [|contradiction].
+        destruct (memb b s); cbn in *; tauto.
+    + intros x H1 H2. apply Hnames2 in H1. apply in_app_or in H2. destruct H2 as [H2|H2]; [apply (DLB x); auto|].
+      apply (DLc x); auto. destruct bc as [b|]; cbn in *; [|contradiction]. destruct (memb b s); cbn in *; tauto.
+Qed.
+
+Theorem dce_wf_all : (forall st, PW st) /\ (forall ss, QW ss).
+Proof.
+  apply stmt_stmts_ind2.
+  - exact PW_SBin.
+  - exact PW_SNot.
+  - exact PW_SPrim.
+  - exact PW_SCall.
+  - exact PW_SIf.
+  - exact PW_SSIf.
+  - exact PW_SBreak.
+  - exact PW_SWhile.
+  - exact QW_nil.
+  - exact QW_cons.
+Qed.
+
+Theorem dce_wf f : wf_func f = true -> wf_func (dce f) = true.
+Proof.
+  unfold wf_func at 1. intros H. apply andb_prop in H. destruct H as [H Hret]. apply andb_prop in H. destruct H as [Hnd Hsc].
+  apply nodupb_NoDup in Hnd.
+  destruct dce_wf_all as [_ HQ]. set (s0 := use_expr (f_ret f) []).
+  assert (Hpre : pre (binders_l (f_body f)) (defs_l (f_body f)) (f_params f) s0).
+  { split; [eapply NoDup_app_r; eauto|]. split.
+    - intros x Hx Hp. eapply (NoDup_app_disj _ _ x Hnd); eauto.
+    - intros x Hx Hb. unfold s0 in Hx. rewrite In_use_expr in Hx. destruct Hx as [E|[]].
+      rewrite E in Hret. apply in_scope_var in Hret. rewrite in_app_iff in Hret. destruct Hret; auto.
+      exfalso. eapply (NoDup_app_disj _ _ x Hnd); eauto. }
+  destruct (HQ (f_body f) (f_params f) (f_params f) s0 Hsc Hpre (fun x _ H => H)) as (A1 & A2 & A3).
+  unfold wf_func, dce. cbn [f_params f_body f_ret]. fold s0. rewrite A1, andb_true_r. apply andb_true_intro. split.
+  - apply NoDup_nodupb. apply NoDup_app_intro; [eapply NoDup_app_l; eauto | exact A3 |].
+    intros x Hp Hb. apply dce_stmts_binders in Hb. eapply (NoDup_app_disj _ _ x Hnd); eauto.
+  - destruct (f_ret f) as [| | |x] eqn:E; try reflexivity. apply in_scope_var. apply in_scope_var in Hret.
+    apply A2; auto. unfold s0. rewrite In_use_expr. auto.
+Qed.
